@@ -12,6 +12,15 @@ Three layers:
 * `T` — abstract syntax of SQL expression text; `rend` is its concrete syntax, `parseExpr` a
   fuel-based precedence-climbing reference parser parametric in the binding powers of every operator
   (`Prec`), `ev` an SQLite-style evaluator (booleans are 0/1, NULL is `none`).
+* `Sym` — what a lexer sees (operators / keywords as spelled words); `retag` classifies a word as
+  binary or prefix operator by its position, `parseText = parse ∘ retag`.
+
+Hand-modelled (tied by the token correspondence of `harness/c03.py`): the paren rule of
+`SQLOp.__sqlrepr__`, `SQLPrefix` / sequence / `MOD(a, b)` text, Python's reflected dispatch
+(`int <op> expr`, and `SQLOp <cmp> SQLModulo` because `SQLModulo` subclasses `SQLOp`).
+Extracted (`Extracted/Expr.lean`): which SQL operator each overload / builder emits and in which
+operand order, the `None` rules of `__eq__` / `__ne__`, `ISNULL` / `ISNOTNULL`, the fold direction of
+`AND` / `OR`, whether `NOTIN` negates, `SQLModulo`'s infix dialects.
 -/
 namespace SqlObjVerif.Expr
 
